@@ -60,3 +60,30 @@ package directive
 //@   loop 1 invariant true
 //@   ensures result.ArgList == ext("strings.Fields", match[2]) && result.Name == match[1] && result.Raw == match[0]
 //@   ensures !mem(result.ArgList, "")
+
+// Usage builds the usage text (printed by -h) in map order: not part of the build output.
+//@ func Usage
+//@   opt prop=C02
+//@   trusted
+//@   opt maprange1=logonly
+
+// Per-file processing (builder.Run and directive.Run) may only write two package variables,
+// and each is stored before it is read by the function through which it is reached, so no
+// value is carried from one profile to the next:
+//   - pkg/aa.IndentationLevel: set by Exec.Apply and Dbus.Apply before they render rules
+//     (the templates move it up and down in pairs; that the pairs balance is not verified);
+//   - pkg/aa.inHeader: set by parsePreamble before it parses (see pkg/aa).
+//@ func Run
+//@   opt prop=C02
+//@   trusted
+//@   opt globalwrites=pkg/aa.IndentationLevel,pkg/aa.inHeader
+
+//@ func (Exec).Apply
+//@   opt prop=C02
+//@   trusted
+//@   opt storefirst=pkg/aa.IndentationLevel
+
+//@ func (Dbus).Apply
+//@   opt prop=C02
+//@   trusted
+//@   opt storefirst=pkg/aa.IndentationLevel
